@@ -12,5 +12,6 @@ CONSTANTS
   FwdHonoursTerm = TRUE
   InitViaQueue = TRUE
   ClearCache = TRUE
+  DrainKeepsTerm = FALSE
 INVARIANTS TypeOK OneResponsePerRequest
 ALIAS BehAlias
